@@ -35,7 +35,28 @@ pub enum Ty {
   Number,
   Str,
   Boolean,
+  /// item definitions of `ITEMS`: a number with allowed values, a reference to it with allowed
+  /// values of its own, a collection of numbers, a component type, a string with allowed values
+  ItemNum,
+  ItemRef,
+  ItemList,
+  ItemComp,
+  ItemStr,
 }
+
+/// The item definitions a generated graph may use: name, XML body (after the name), and the
+/// definition for the driver (the format of C11).
+const ITEMS: [(&str, &str, &str); 5] = [
+  ("tNum", "><typeRef>number</typeRef><allowedValues><text>&gt;= 0</text></allowedValues>", "(simple number (cmp ge 0))"),
+  ("tRef", "><typeRef>tNum</typeRef><allowedValues><text>&lt; 20</text></allowedValues>", "(ref (s 116 78 117 109) (cmp lt 20))"),
+  ("tList", " isCollection=\"true\"><typeRef>number</typeRef>", "(collSimple number none)"),
+  (
+    "tComp",
+    "><itemComponent name=\"r\"><typeRef>number</typeRef></itemComponent><itemComponent name=\"s\"><typeRef>tNum</typeRef></itemComponent>",
+    "(comp (((s 114) (simple number none)) ((s 115) (ref (s 116 78 117 109) none))) none)",
+  ),
+  ("tStr", "><typeRef>string</typeRef><allowedValues><text>\"a\",\"b\"</text></allowedValues>", "(simple string (lits (s 97) (s 98)))"),
+];
 
 impl Ty {
   fn atom(self) -> &'static str {
@@ -45,6 +66,22 @@ impl Ty {
       Ty::Number => "number",
       Ty::Str => "string",
       Ty::Boolean => "boolean",
+      Ty::ItemNum => "tNum",
+      Ty::ItemRef => "tRef",
+      Ty::ItemList => "tList",
+      Ty::ItemComp => "tComp",
+      Ty::ItemStr => "tStr",
+    }
+  }
+  fn is_item(self) -> bool {
+    matches!(self, Ty::ItemNum | Ty::ItemRef | Ty::ItemList | Ty::ItemComp | Ty::ItemStr)
+  }
+  /// the type for the driver
+  fn sexp(self) -> Sexp {
+    if self.is_item() {
+      Sexp::tagged("named", vec![Sexp::str(self.atom())])
+    } else {
+      Sexp::atom(self.atom())
     }
   }
   fn attr(self) -> String {
@@ -74,6 +111,20 @@ pub enum Logic {
   Inv(Box<Logic>, Vec<(String, Logic)>, bool),
   /// columns, rows of literal expressions
   Rel(Vec<String>, Vec<Vec<String>>),
+  /// a decision table
+  Table(GTable),
+}
+
+#[derive(Clone, Debug)]
+pub struct GTable {
+  /// `hitPolicy` attribute, `aggregation` attribute, tag for the driver
+  hit_policy: (&'static str, Option<&'static str>, &'static str),
+  /// input expression, input values
+  inputs: Vec<(String, Option<String>)>,
+  /// name, output values, default output entry
+  outputs: Vec<(Option<String>, Option<String>, Option<String>)>,
+  /// input entries, output entries
+  rules: Vec<(Vec<String>, Vec<String>)>,
 }
 
 #[derive(Clone, Debug)]
@@ -162,6 +213,9 @@ impl Graph {
     }
     v
   }
+  fn uses_items(&self) -> bool {
+    self.inputs.iter().any(|i| i.ty.is_item()) || self.decisions.iter().any(|d| d.ty.is_item()) || self.bkms.iter().any(|b| b.ty.is_item()) || self.services.iter().any(|s| s.ty.is_item())
+  }
   fn bkm_requires_service(&self) -> bool {
     self.bkms.iter().any(|b| b.req_knowledge.iter().any(|k| self.service(k).is_some()))
   }
@@ -208,6 +262,46 @@ fn logic_xml(l: &Logic) -> String {
       s.push_str("</functionDefinition>");
       s
     }
+    Logic::Table(t) => {
+      let mut s = format!("<decisionTable hitPolicy=\"{}\"", t.hit_policy.0);
+      if let Some(a) = t.hit_policy.1 {
+        s.push_str(&format!(" aggregation=\"{}\"", a));
+      }
+      s.push('>');
+      for (e, v) in &t.inputs {
+        s.push_str(&format!("<input><inputExpression><text>{}</text></inputExpression>", esc(e)));
+        if let Some(v) = v {
+          s.push_str(&format!("<inputValues><text>{}</text></inputValues>", esc(v)));
+        }
+        s.push_str("</input>");
+      }
+      for (n, v, d) in &t.outputs {
+        s.push_str("<output");
+        if let Some(n) = n {
+          s.push_str(&format!(" name=\"{}\"", esc(n)));
+        }
+        s.push('>');
+        if let Some(v) = v {
+          s.push_str(&format!("<outputValues><text>{}</text></outputValues>", esc(v)));
+        }
+        if let Some(d) = d {
+          s.push_str(&format!("<defaultOutputEntry><text>{}</text></defaultOutputEntry>", esc(d)));
+        }
+        s.push_str("</output>");
+      }
+      for (ies, oes) in &t.rules {
+        s.push_str("<rule>");
+        for e in ies {
+          s.push_str(&format!("<inputEntry><text>{}</text></inputEntry>", esc(e)));
+        }
+        for e in oes {
+          s.push_str(&format!("<outputEntry><text>{}</text></outputEntry>", esc(e)));
+        }
+        s.push_str("</rule>");
+      }
+      s.push_str("</decisionTable>");
+      s
+    }
     Logic::Rel(cols, rows) => {
       let mut s = String::from("<relation>");
       for c in cols {
@@ -230,6 +324,11 @@ const HEAD: &str = r#"<?xml version="1.0" encoding="UTF-8"?><definitions namespa
 
 pub fn graph_xml(g: &Graph) -> String {
   let mut x = String::from(HEAD);
+  if g.uses_items() {
+    for (name, body, _) in ITEMS {
+      x.push_str(&format!("<itemDefinition name=\"{}\"{}</itemDefinition>", name, body));
+    }
+  }
   for i in &g.inputs {
     x.push_str(&format!("<inputData name=\"{}\" id=\"{}\"><variable name=\"{}\"{}/></inputData>", esc(&i.name), i.id, esc(&i.name), i.ty.attr()));
   }
@@ -316,6 +415,22 @@ fn decision_build_ctx(g: &Graph, d: &GDecision) -> FeelContext {
     if let Some(i) = g.input(q) {
       if let Some(t) = i.ty.feel_type() {
         ctx.set_entry(&Name::from(i.name.as_str()), Value::FeelType(t));
+      } else if i.ty.is_item() {
+        // `item_definition_context_evaluator.eval` (`item_definition_context.rs`): what the
+        // definition's kind puts under the name
+        let n = Name::from(i.name.as_str());
+        let num = || Value::FeelType(FeelType::Number);
+        match i.ty {
+          Ty::ItemNum | Ty::ItemRef => ctx.set_entry(&n, num()),
+          Ty::ItemStr => ctx.set_entry(&n, Value::FeelType(FeelType::String)),
+          Ty::ItemList => ctx.set_entry(&n, Value::List(dmntk_feel::values::Values::new(vec![num()]))),
+          _ => {
+            let mut c = FeelContext::default();
+            c.set_entry(&Name::from("r"), num());
+            c.set_entry(&Name::from("s"), num());
+            ctx.set_entry(&n, Value::Context(c));
+          }
+        }
       }
     }
   }
@@ -375,6 +490,54 @@ fn logic_sexp(scope: &Scope, l: &Logic) -> Option<Sexp> {
       }
       Some(Sexp::tagged("inv", xs))
     }
+    Logic::Table(t) => {
+      // `parse_decision_table` (`decision_table.rs:271-347`): every cell in the scope of the
+      // enclosing element; input expressions and output entries are expressions, the other
+      // cells unary tests
+      let expr = |text: &str| -> Option<Sexp> {
+        match guarded(|| dmntk_feel_parser::parse_expression(scope, text, false)) {
+          Ok(Ok(n)) => Some(ast_sexp(&n)),
+          _ => None,
+        }
+      };
+      let tests = |text: &str| -> Option<Sexp> {
+        match guarded(|| dmntk_feel_parser::parse_unary_tests(scope, text, false)) {
+          Ok(Ok(n)) => Some(ast_sexp(&n)),
+          _ => None,
+        }
+      };
+      let opt = |text: &Option<String>| -> Option<Sexp> {
+        match text {
+          Some(t) => tests(t),
+          None => Some(Sexp::atom("absent")),
+        }
+      };
+      let mut ins = vec![];
+      for (e, v) in &t.inputs {
+        ins.push(Sexp::tagged("in", vec![expr(e)?, opt(v)?]));
+      }
+      let mut outs = vec![];
+      for (n, v, d) in &t.outputs {
+        let name = match n {
+          Some(n) => Sexp::str(n),
+          None => Sexp::atom("absent"),
+        };
+        outs.push(Sexp::tagged("out", vec![name, opt(v)?, opt(d)?]));
+      }
+      let mut rules = vec![];
+      for (ies, oes) in &t.rules {
+        let mut a = vec![];
+        for e in ies {
+          a.push(tests(e)?);
+        }
+        let mut b = vec![];
+        for e in oes {
+          b.push(expr(e)?);
+        }
+        rules.push(Sexp::tagged("rule", vec![Sexp::list(a), Sexp::list(b)]));
+      }
+      Some(Sexp::tagged("dt", vec![Sexp::str(t.hit_policy.2), Sexp::list(ins), Sexp::list(outs), Sexp::list(rules)]))
+    }
     Logic::Rel(cols, rows) => {
       let mut rs = vec![];
       for r in rows {
@@ -403,7 +566,7 @@ fn type_atom(t: Ty) -> Sexp {
 pub fn graph_sexp(g: &Graph) -> Option<Sexp> {
   let mut is = vec![];
   for i in &g.inputs {
-    is.push(Sexp::list(vec![Sexp::str(&i.id), Sexp::str(&i.name), Sexp::atom(i.ty.atom())]));
+    is.push(Sexp::list(vec![Sexp::str(&i.id), Sexp::str(&i.name), i.ty.sexp()]));
   }
   let mut ds = vec![];
   for d in &g.decisions {
@@ -413,7 +576,7 @@ pub fn graph_sexp(g: &Graph) -> Option<Sexp> {
       Sexp::str(&d.id),
       Sexp::str(&d.name),
       Sexp::str(&d.var),
-      Sexp::atom(d.ty.atom()),
+      d.ty.sexp(),
       strs(&d.req_inputs),
       strs(&d.req_decisions),
       strs(&d.req_knowledge),
@@ -428,7 +591,7 @@ pub fn graph_sexp(g: &Graph) -> Option<Sexp> {
       Sexp::str(&b.id),
       Sexp::str(&b.name),
       Sexp::str(&b.var),
-      Sexp::atom(b.ty.atom()),
+      b.ty.sexp(),
       Sexp::list(b.params.iter().map(|(p, t)| Sexp::list(vec![Sexp::str(p), type_atom(*t)])).collect()),
       strs(&b.req_knowledge),
       l,
@@ -440,14 +603,22 @@ pub fn graph_sexp(g: &Graph) -> Option<Sexp> {
       Sexp::str(&s.id),
       Sexp::str(&s.name),
       Sexp::str(&s.var),
-      Sexp::atom(s.ty.atom()),
+      s.ty.sexp(),
       strs(&s.input_data),
       strs(&s.input_decisions),
       strs(&s.encapsulated),
       strs(&s.output),
     ]));
   }
-  Some(Sexp::tagged("graph", vec![Sexp::list(is), Sexp::list(ds), Sexp::list(ks), Sexp::list(ss)]))
+  let mut parts = vec![Sexp::list(is), Sexp::list(ds), Sexp::list(ks), Sexp::list(ss)];
+  if g.uses_items() {
+    let mut items = vec![];
+    for (name, _, def) in ITEMS {
+      items.push(Sexp::list(vec![Sexp::str(name), Sexp::parse(def)?]));
+    }
+    parts.push(Sexp::list(items));
+  }
+  Some(Sexp::tagged("graph", parts))
 }
 
 // ------------------------------------------------------------------------------------------
@@ -457,10 +628,14 @@ pub fn graph_sexp(g: &Graph) -> Option<Sexp> {
 #[derive(Clone, Debug, PartialEq)]
 enum VK {
   Num,
+  /// a number that is certainly an integer (or null): what decision tables may compute with
+  Int,
   Str,
   Bool,
   /// context with numeric entries `r`, `s`
   CtxRS,
+  /// context with integer entries `r`, `s`
+  CtxInt,
   /// list of numbers
   ListN,
   /// list of contexts with column `c0`
@@ -481,7 +656,7 @@ impl Env {
     let mut v = vec![];
     for (n, k) in &self.names {
       let k = match k {
-        VK::Num => K::Num,
+        VK::Num | VK::Int => K::Num,
         VK::Str => K::Str,
         VK::Bool => K::Bool,
         VK::ListN => K::List,
@@ -515,7 +690,7 @@ impl<'a> GraphGen<'a> {
   }
   /// a small numeric expression that does not multiply variables (keeps values small)
   fn small(&mut self, env: &Env) -> String {
-    let nums: Vec<&String> = env.names.iter().filter(|(_, k)| *k == VK::Num).map(|(n, _)| n).collect();
+    let nums: Vec<&String> = env.names.iter().filter(|(_, k)| matches!(k, VK::Num | VK::Int)).map(|(n, _)| n).collect();
     if !nums.is_empty() && self.rng.chance(1, 2) {
       (*self.rng.pick(&nums)).clone()
     } else {
@@ -525,8 +700,8 @@ impl<'a> GraphGen<'a> {
   /// a number-valued use of the name `n` of kind `k`
   fn use_num(&mut self, n: &str, k: &VK, env: &Env) -> Option<String> {
     Some(match k {
-      VK::Num => n.to_string(),
-      VK::CtxRS => format!("{}.{}", n, self.rng.pick(&["r", "s"])),
+      VK::Num | VK::Int => n.to_string(),
+      VK::CtxRS | VK::CtxInt => format!("{}.{}", n, self.rng.pick(&["r", "s"])),
       VK::ListN => format!("{}[{}]", n, self.rng.range(1, 2)),
       VK::Rel => format!("{}[1].c0", n),
       VK::Fun(ps) => self.call(n, ps, env),
@@ -550,6 +725,124 @@ impl<'a> GraphGen<'a> {
       2 if !ps.is_empty() => format!("{}({})", f, args[1..].join(", ")),
       _ => format!("{}({})", f, args.join(", ")),
     }
+  }
+  /// an integer-valued expression: integer literals and names of kind `Int`, `+` and `-`
+  fn int_expr(&mut self, env: &Env) -> String {
+    let ints: Vec<&String> = env.names.iter().filter(|(_, k)| *k == VK::Int).map(|(n, _)| n).collect();
+    let atom = |me: &mut Self| -> String {
+      if !ints.is_empty() && me.rng.chance(2, 3) {
+        (*me.rng.pick(&ints)).clone()
+      } else {
+        format!("{}", me.rng.range(0, 12))
+      }
+    };
+    match self.rng.below(4) {
+      0 => format!("{} + {}", atom(self), atom(self)),
+      1 => format!("{} - {}", atom(self), self.rng.range(0, 5)),
+      _ => atom(self),
+    }
+  }
+  /// a unary test on an integer
+  fn int_test(&mut self, env: &Env, names: bool) -> String {
+    // (a negative literal is not a unary test of this parser: `>= -1` is a syntax error)
+    let k = self.rng.range(0, 20);
+    match self.rng.below(12) {
+      0 | 1 => "-".to_string(),
+      2 => format!("< {}", k),
+      3 => format!("<= {}", k),
+      4 => format!("> {}", k),
+      5 => format!(">= {}", k),
+      6 => format!("{}", k),
+      7 => format!("[{}..{}]", k, k + self.rng.range(0, 10)),
+      8 => format!("not({})", k),
+      9 => format!("{}, {}", k, k + 3),
+      10 if names => format!("< {}", self.int_expr(env)),
+      _ => format!(">= {}", k),
+    }
+  }
+  /// A decision table over the names in `env` (the cells of a knowledge model's table use
+  /// literals in the output entries: its parameters need not be integers).
+  fn table(&mut self, env: &Env, for_bkm: bool) -> (Logic, VK) {
+    const POLICIES: [(&str, Option<&str>, &str); 11] = [
+      ("UNIQUE", None, "U"),
+      ("FIRST", None, "F"),
+      ("PRIORITY", None, "P"),
+      ("COLLECT", Some("SUM"), "C+"),
+      ("ANY", None, "A"),
+      ("RULE ORDER", None, "R"),
+      ("OUTPUT ORDER", None, "O"),
+      ("COLLECT", None, "C"),
+      ("COLLECT", Some("MIN"), "C<"),
+      ("COLLECT", Some("MAX"), "C>"),
+      ("COLLECT", Some("COUNT"), "C#"),
+    ];
+    let hp = if self.rng.chance(2, 3) { POLICIES[self.rng.below(4) as usize] } else { *self.rng.pick(&POLICIES) };
+    let tag = hp.2;
+    let aggregating = matches!(tag, "C+" | "C<" | "C>" | "C#");
+    let prioritising = matches!(tag, "P" | "O");
+    let n_in = 1 + self.rng.below(2) as usize;
+    let n_out = if aggregating && self.rng.chance(9, 10) { 1 } else { 1 + self.rng.below(2) as usize };
+    let strings = !aggregating && self.rng.chance(1, 5);
+    let mut inputs = vec![];
+    for _ in 0..n_in {
+      let e = if for_bkm {
+        // a parameter, or an integer expression
+        let ps: Vec<&String> = env.names.iter().filter(|(_, k)| matches!(k, VK::Num | VK::Int)).map(|(n, _)| n).collect();
+        if !ps.is_empty() && self.rng.chance(3, 4) {
+          (*self.rng.pick(&ps)).clone()
+        } else {
+          self.int_expr(env)
+        }
+      } else {
+        self.int_expr(env)
+      };
+      let iv = match self.rng.below(8) {
+        0 => Some("[0..100]".to_string()),
+        1 => Some(">= 0".to_string()),
+        _ => None,
+      };
+      inputs.push((e, iv));
+    }
+    let lits: Vec<String> = if strings { vec!["\"a\"".into(), "\"b\"".into(), "\"c\"".into()] } else { vec!["1".into(), "2".into(), "3".into(), "10".into()] };
+    let mut outputs = vec![];
+    for o in 0..n_out {
+      let name = if n_out == 2 { Some(if o == 0 { "r".to_string() } else { "s".to_string() }) } else if self.rng.chance(1, 3) { Some("o".to_string()) } else { None };
+      let ov = if prioritising || self.rng.chance(1, 8) {
+        let mut l = lits.clone();
+        if self.rng.chance(1, 2) {
+          l.reverse();
+        }
+        l.truncate(3);
+        Some(l.join(", "))
+      } else {
+        None
+      };
+      let def = if self.rng.chance(1, 3) { Some(self.rng.pick(&lits).clone()) } else { None };
+      outputs.push((name, ov, def));
+    }
+    let n_rules = self.rng.below(5) as usize;
+    let mut rules = vec![];
+    for _ in 0..n_rules {
+      let ies: Vec<String> = (0..n_in).map(|_| self.int_test(env, !for_bkm)).collect();
+      let oes: Vec<String> = (0..n_out)
+        .map(|o| {
+          if outputs[o].1.is_some() || strings || for_bkm || self.rng.chance(1, 2) {
+            self.rng.pick(&lits).clone()
+          } else {
+            self.int_expr(env)
+          }
+        })
+        .collect();
+      rules.push((ies, oes));
+    }
+    let kind = match (tag, n_out) {
+      ("U" | "F" | "P" | "A", 1) => if strings { VK::Str } else { VK::Int },
+      ("U" | "F" | "P" | "A", _) => if strings { VK::Null } else { VK::CtxInt },
+      ("C+" | "C<" | "C>" | "C#", 1) => VK::Int,
+      ("C" | "R" | "O", 1) => if strings { VK::Null } else { VK::ListN },
+      _ => VK::Null,
+    };
+    (Logic::Table(GTable { hit_policy: hp, inputs, outputs, rules }), kind)
   }
   /// literal expression text over the names in `env`, and the kind of its value
   fn expr(&mut self, env: &Env) -> (String, VK) {
@@ -619,6 +912,7 @@ impl<'a> GraphGen<'a> {
         let b = pick_use(self);
         (format!("[{}, {}, 7][item > {}]", a, b, self.rng.range(0, 9)), VK::Null)
       }
+      14 => (self.int_expr(env), VK::Int),
       _ => {
         let a = pick_use(self);
         (a, VK::Num)
@@ -632,11 +926,12 @@ impl<'a> GraphGen<'a> {
       let (t, k) = self.expr(env);
       return (Logic::Lit(t), k);
     }
-    match self.rng.below(6) {
+    match self.rng.below(9) {
+      6 | 7 | 8 => self.table(env, false),
       0 | 1 => {
         // boxed context: r, s (sees r), optionally a result entry
         let (a, ka) = self.expr(env);
-        let ka = if ka == VK::Num { VK::Num } else { VK::Null };
+        let ka = if matches!(ka, VK::Num | VK::Int) { VK::Num } else { VK::Null };
         let mut inner = Env { names: env.names.clone() };
         inner.names.push(("r".into(), ka.clone()));
         let b = format!("{} + {}", if ka == VK::Num { "r".to_string() } else { "1".to_string() }, self.small(env));
@@ -647,6 +942,12 @@ impl<'a> GraphGen<'a> {
           entries.push((None, Logic::Lit(c)));
           (Logic::Ctx(entries), kc)
         } else if self.rng.chance(1, 4) {
+          // an entry that is a decision table over the entries before it
+          inner.names.push(("s".into(), VK::Num));
+          let (t, _) = self.table(&inner, false);
+          entries.push((Some("t".to_string()), t));
+          (Logic::Ctx(entries), if ka == VK::Num { VK::CtxRS } else { VK::Null })
+        } else if self.rng.chance(1, 3) {
           // a nested boxed context writes into the same top context of the scope
           let nested = Logic::Ctx(vec![(Some("t".to_string()), Logic::Lit("s + 1".into()))]);
           entries.push((Some("n".to_string()), nested));
@@ -716,16 +1017,27 @@ fn logic_kinds(l: &Logic, out: &mut BTreeSet<&'static str>) {
     Logic::Rel(..) => {
       out.insert("relation");
     }
+    Logic::Table(_) => {
+      out.insert("decision-table");
+    }
   }
 }
 
 fn ty_of_kind(k: &VK, rng: &mut Rng) -> Ty {
+  // variables typed by item definitions, where the values are certainly integers
+  if rng.chance(1, 5) {
+    match k {
+      VK::Int => return *rng.pick(&[Ty::ItemNum, Ty::ItemRef]),
+      VK::CtxInt => return Ty::ItemComp,
+      _ => {}
+    }
+  }
   match rng.below(10) {
     0..=4 => Ty::Untyped,
     5 => Ty::Number,
     6 => Ty::Str,
     _ => match k {
-      VK::Num => Ty::Number,
+      VK::Num | VK::Int => Ty::Number,
       VK::Str => Ty::Str,
       VK::Bool => Ty::Boolean,
       _ => Ty::Untyped,
@@ -738,6 +1050,8 @@ fn coerced_kind(k: &VK, ty: Ty) -> VK {
   match (ty, k) {
     (Ty::Untyped, _) | (Ty::Other, _) => k.clone(),
     (Ty::Number, VK::Num) => VK::Num,
+    (Ty::Number, VK::Int) | (Ty::ItemNum, VK::Int) | (Ty::ItemRef, VK::Int) => VK::Int,
+    (Ty::ItemComp, VK::CtxInt) => VK::CtxInt,
     (Ty::Str, VK::Str) => VK::Str,
     (Ty::Boolean, VK::Bool) => VK::Bool,
     _ => VK::Null,
@@ -759,7 +1073,13 @@ pub fn gen_graph(rng: &mut Rng) -> Graph {
     let ix = rng.below(names.len() as u64) as usize;
     let name = names.remove(ix);
     // an input without typeRef makes `ModelEvaluator::new` fail (input_data_context.rs:78)
-    let ty = if rng.chance(1, 60) { Ty::Untyped } else { *rng.pick(&INPUT_TYPES) };
+    let ty = if rng.chance(1, 60) {
+      Ty::Untyped
+    } else if rng.chance(1, 5) {
+      *rng.pick(&[Ty::ItemNum, Ty::ItemRef, Ty::ItemList, Ty::ItemComp, Ty::ItemStr])
+    } else {
+      *rng.pick(&INPUT_TYPES)
+    };
     g.inputs.push(GInput { id: format!("_i{}", k), name: name.to_string(), ty });
   }
   let n_nodes = 2 + rng.below(6) as usize;
@@ -779,7 +1099,11 @@ pub fn gen_graph(rng: &mut Rng) -> Graph {
 
 fn input_kind(ty: Ty) -> VK {
   match ty {
-    Ty::Number => VK::Num,
+    // the generated input values of type number are integers
+    Ty::Number | Ty::ItemNum | Ty::ItemRef => VK::Int,
+    Ty::ItemList => VK::ListN,
+    Ty::ItemComp => VK::CtxInt,
+    Ty::ItemStr => VK::Str,
     Ty::Str => VK::Str,
     Ty::Boolean => VK::Bool,
     _ => VK::Null,
@@ -907,14 +1231,15 @@ fn gen_bkm(gg: &mut GraphGen, g: &mut Graph, kinds: &mut Kinds, node: usize) {
   for (p, t) in &params {
     env.names.push((p.clone(), if *t == Ty::Str { VK::Str } else { VK::Num }));
   }
-  let (logic, k) = gg.logic(&env, true);
+  // a knowledge model whose body is a decision table over its parameters
+  let (logic, k) = if !params.is_empty() && gg.rng.chance(1, 4) { gg.table(&env, true) } else { gg.logic(&env, true) };
   let var = match gg.rng.below(12) {
     0 if !g.inputs.is_empty() => gg.rng.pick(&g.inputs).name.clone(),
     _ => format!("f{}", node),
   };
   let ty = ty_of_kind(&k, gg.rng);
   let fk = match coerced_kind(&k, ty) {
-    VK::Num => VK::Fun(params.iter().map(|(p, _)| p.clone()).collect()),
+    VK::Num | VK::Int => VK::Fun(params.iter().map(|(p, _)| p.clone()).collect()),
     _ => VK::Null,
   };
   kinds.bkms.insert(id.clone(), fk);
@@ -952,7 +1277,7 @@ fn gen_service(gg: &mut GraphGen, g: &mut Graph, kinds: &mut Kinds, node: usize)
   let outs: Vec<&GDecision> = output.iter().filter_map(|q| g.decision(q)).collect();
   let k = if outs.len() == 1 {
     match coerced_kind(kinds.decisions.get(&outs[0].id).unwrap_or(&VK::Null), ty) {
-      VK::Num => VK::Fun(ps.clone()),
+      VK::Num | VK::Int => VK::Fun(ps.clone()),
       _ => VK::Null,
     }
   } else if ty == Ty::Untyped {
@@ -961,6 +1286,10 @@ fn gen_service(gg: &mut GraphGen, g: &mut Graph, kinds: &mut Kinds, node: usize)
   } else {
     VK::Null
   };
+  // a service whose parameters are checked by item definitions is not invoked from generated
+  // FEEL text (the arguments there need not be integers, which the model of C11 requires)
+  let item_params = input_data.iter().any(|q| g.input(q).map_or(false, |i| i.ty.is_item())) || input_decisions.iter().any(|q| g.decision(q).map_or(false, |d| d.ty.is_item()));
+  let k = if item_params { VK::Null } else { k };
   kinds.services.insert(id.clone(), k);
   g.services.push(GService { id, name: var.clone(), var, ty, input_data, input_decisions, encapsulated, output });
 }
@@ -1103,6 +1432,99 @@ pub fn corpus() -> Vec<(&'static str, Graph)> {
       services: vec![],
     },
   ));
+  // an input decision two levels below the output decision of a service; the service used as a
+  // function by a decision of another service (three levels of services / decisions)
+  v.push((
+    "three-level-service",
+    Graph {
+      inputs: vec![inp("_x", "x", Ty::Number)],
+      decisions: vec![
+        dec("_a", "A", Ty::Number, &["_x"], &[], &[], lit("x + 1")),
+        dec("_b", "B", Ty::Untyped, &[], &["_a"], &[], lit("A * 2")),
+        dec("_c", "C", Ty::Untyped, &["_x"], &["_b"], &[], lit("B + x")),
+        dec("_e", "E", Ty::Untyped, &["_x"], &[], &["_s"], lit("S(x, 10) + S(A: 1, x: 2)")),
+      ],
+      bkms: vec![],
+      services: vec![svc("_s", "S", Ty::Untyped, &["_x"], &["_a"], &["_b"], &["_c"]), svc("_s2", "S2", Ty::Untyped, &["_x"], &[], &[], &["_e", "_c"])],
+    },
+  ));
+  // decision tables: as decision logic over a required input and a required decision, as the
+  // body of a knowledge model (invoked by literal and by boxed invocation), as a context entry;
+  // item definitions on an input and on a decision variable that is an input decision
+  v.push((
+    "tables-and-item-definitions",
+    Graph {
+      inputs: vec![inp("_x", "x", Ty::ItemNum), inp("_p", "p", Ty::ItemComp)],
+      decisions: vec![
+        dec("_a", "A", Ty::ItemRef, &["_x"], &[], &[], lit("x + 15")),
+        dec(
+          "_t",
+          "T",
+          Ty::Untyped,
+          &["_x"],
+          &["_a"],
+          &[],
+          Logic::Table(GTable {
+            hit_policy: ("UNIQUE", None, "U"),
+            inputs: vec![("x".into(), None), ("A".into(), Some("[0..100]".into()))],
+            outputs: vec![(None, None, Some("0".into()))],
+            rules: vec![(vec!["< 3".into(), "-".into()], vec!["A + 1".into()]), (vec![">= 3".into(), "< x + 20".into()], vec!["x".into()])],
+          }),
+        ),
+        dec(
+          "_c",
+          "C",
+          Ty::ItemComp,
+          &["_p"],
+          &["_a"],
+          &[],
+          Logic::Table(GTable {
+            hit_policy: ("PRIORITY", None, "P"),
+            inputs: vec![("p.r".into(), None)],
+            outputs: vec![(Some("r".into()), Some("3, 2, 1".into()), None), (Some("s".into()), Some("10, 20".into()), Some("20".into()))],
+            rules: vec![(vec!["> 0".into()], vec!["1".into(), "10".into()]), (vec!["> 1".into()], vec!["2".into(), "20".into()]), (vec!["> 2".into()], vec!["3".into(), "20".into()])],
+          }),
+        ),
+        dec("_s0", "Sum", Ty::Untyped, &["_x"], &[], &["_f"], lit("F(x, 2) + F(q: 5, p: x)")),
+        dec("_i", "Inv", Ty::Untyped, &["_x"], &[], &["_f"], Logic::Inv(Box::new(lit("F")), vec![("p".into(), lit("x + 1")), ("q".into(), lit("3"))], false)),
+        dec(
+          "_k",
+          "K",
+          Ty::Untyped,
+          &["_x"],
+          &[],
+          &[],
+          Logic::Ctx(vec![
+            (Some("r".into()), lit("x + 1")),
+            (
+              Some("t".into()),
+              Logic::Table(GTable {
+                hit_policy: ("COLLECT", Some("SUM"), "C+"),
+                inputs: vec![("r".into(), None)],
+                outputs: vec![(None, None, None)],
+                rules: vec![(vec!["> 1".into()], vec!["r".into()]), (vec!["> 2".into()], vec!["10".into()]), (vec!["-".into()], vec!["1".into()])],
+              }),
+            ),
+          ]),
+        ),
+        dec("_u", "U", Ty::Untyped, &[], &["_a", "_c"], &[], lit("A + C.r")),
+      ],
+      bkms: vec![bkm(
+        "_f",
+        "F",
+        Ty::Untyped,
+        &[("p", Ty::Untyped), ("q", Ty::Number)],
+        &[],
+        Logic::Table(GTable {
+          hit_policy: ("FIRST", None, "F"),
+          inputs: vec![("p".into(), None), ("q".into(), None)],
+          outputs: vec![(Some("o".into()), None, Some("0".into()))],
+          rules: vec![(vec!["< 5".into(), "< 5".into()], vec!["1".into()]), (vec![">= 5".into(), "-".into()], vec!["2".into()]), (vec!["-".into(), "not(3)".into()], vec!["3".into()])],
+        }),
+      )],
+      services: vec![svc("_sv", "SV", Ty::Untyped, &["_x"], &["_a", "_c"], &[], &["_u"])],
+    },
+  ));
   // acyclic by ids, recursive by names: the knowledge model `_g` is named like the model it
   // requires and invokes; function values are dynamically scoped, so `F` in its body is itself.
   // The implementation overflows its stack (C05/C12 territory); the model diverges.
@@ -1180,6 +1602,31 @@ fn eval_text(text: &str) -> Value {
 }
 
 fn value_text(ty: Ty, rng: &mut Rng) -> String {
+  match ty {
+    Ty::ItemList => {
+      return match rng.below(5) {
+        0 => format!("{}", rng.range(0, 9)),
+        1 => "[1, \"a\"]".to_string(),
+        2 => "[]".to_string(),
+        _ => format!("[{}, {}]", rng.range(0, 9), rng.range(0, 30)),
+      }
+    }
+    Ty::ItemComp => {
+      return match rng.below(6) {
+        0 => format!("{{r: {}}}", rng.range(0, 9)),
+        1 => format!("{{r: {}, s: \"a\"}}", rng.range(0, 9)),
+        2 => format!("{{r: {}, s: {}, t: 1}}", rng.range(0, 9), rng.range(0, 9)),
+        3 => "7".to_string(),
+        _ => format!("{{r: {}, s: {}}}", rng.range(-3, 9), rng.range(-3, 30)),
+      }
+    }
+    _ => {}
+  }
+  let ty = match ty {
+    Ty::ItemNum | Ty::ItemRef => Ty::Number,
+    Ty::ItemStr => Ty::Str,
+    t => t,
+  };
   let right = rng.chance(5, 6);
   let k = if right {
     match ty {
@@ -1193,7 +1640,7 @@ fn value_text(ty: Ty, rng: &mut Rng) -> String {
   };
   match k {
     0 => format!("{}", rng.range(-3, 30)),
-    1 => format!("\"{}\"", rng.pick(&["a", "b", ""])),
+    1 => format!("\"{}\"", rng.pick(&["a", "b", "", "c"])),
     2 => format!("{}", rng.chance(1, 2)),
     _ => "null".into(),
   }
@@ -1501,6 +1948,35 @@ pub fn run(cfg: &Cfg) -> Report {
       for k in kinds {
         rep.hit(&format!("decision-logic:{}", k));
       }
+      if g.inputs.iter().any(|i| i.ty.is_item()) {
+        rep.hit("graph:input-typed-by-item-definition");
+      }
+      if g.decisions.iter().any(|d| d.ty.is_item()) {
+        rep.hit("graph:decision-variable-typed-by-item-definition");
+      }
+      if g.services.iter().any(|s| s.input_decisions.iter().any(|q| g.decision(q).map_or(false, |d| d.ty.is_item()))) {
+        rep.hit("graph:input-decision-typed-by-item-definition");
+      }
+      fn tables<'t>(l: &'t Logic, out: &mut Vec<&'t GTable>) {
+        match l {
+          Logic::Table(t) => out.push(t),
+          Logic::Ctx(es) => es.iter().for_each(|(_, e)| tables(e, out)),
+          Logic::Inv(f, bs, _) => {
+            tables(f, out);
+            bs.iter().for_each(|(_, e)| tables(e, out));
+          }
+          _ => {}
+        }
+      }
+      let mut ts = vec![];
+      g.decisions.iter().for_each(|d| tables(&d.logic, &mut ts));
+      g.bkms.iter().for_each(|b| tables(&b.logic, &mut ts));
+      for t in ts {
+        rep.hit(&format!("table:{}", t.hit_policy.2));
+      }
+      if g.services.iter().any(|s| g.decisions.iter().any(|d| d.req_knowledge.contains(&s.id) && g.services.iter().any(|s2| s2.id != s.id && (s2.output.contains(&d.id) || s2.encapsulated.contains(&d.id))))) {
+        rep.hit("graph:service-inside-service");
+      }
       let vn = g.var_names();
       if g.inputs.iter().any(|i| vn.contains(&i.name)) {
         rep.hit("graph:variable-named-like-an-input");
@@ -1666,6 +2142,9 @@ pub fn run(cfg: &Cfg) -> Report {
         continue;
       }
       rep.case(&reqs[ix], p.nontrivial);
+      if !p.shape.starts_with("random") {
+        rep.hit(&format!("corpus:{}", p.shape));
+      }
       rep.hit(&format!("variant:{}", p.variant));
       rep.hit(&format!("outcome:{}", p.implementation.split(' ').next().unwrap_or("").trim_matches(|c| c == '(' || c == ')')));
       if p.implementation.starts_with("(panic") {
@@ -1683,6 +2162,9 @@ pub fn run(cfg: &Cfg) -> Report {
         rep.disagree(Kind::ImplVsModel, "evaluate_invocable", sig, &input_desc, &p.implementation, &m);
       }
       // ---- the property, first sentence: the value prescribed by the specification
+      if p.implementation != s && trace {
+        eprintln!("MISMATCH-REQUEST {}", reqs[ix]);
+      }
       if p.implementation != s {
         let sig = if p.var_clash {
           "an input entry named like the variable of a required decision / knowledge model / decision service replaces its value (overwrite by input data)"
